@@ -333,6 +333,26 @@ def _layer_filters_source(repo: Repo, T, view: FuncInfo, it: ast.expr, layer_var
     return "unknown", text
 
 
+def _whole_layer_handed_over(repo: Repo, T, view: FuncInfo, p: Production) -> Production:
+    """`rule._add_modules(architecture[layer])` inside a loop over the named layers: the layer's filter list is handed over
+    wholesale - the same event as "every filter m of architecture[layer]" (filter objects of their own kind)."""
+    if p.elt is not None or p.merged is None:
+        return p
+    pv = p.view or view
+    loops = list(p.loops)
+    if not loops:
+        return p
+    layer_vars: set[str] = set()
+    for t, _it in loops:
+        layer_vars |= target_names(t)
+    kind, _text = _layer_filters_source(repo, T, pv, p.merged, layer_vars)
+    if kind not in ("all", "part"):
+        return p
+    var = "layer_module_filter__"
+    q = Production(ast.Name(id=var, ctx=ast.Load()), loops + [(ast.Name(id=var, ctx=ast.Store()), p.merged)], list(p.conds), p.node, view=p.view, binding=p.binding, caller=p.caller)
+    return q
+
+
 def check_are_named(repo: Repo, res: Result) -> FuncInfo | None:
     """are_named: every named layer contributes *all* of its module filters as (identifier, is-regex) to the wrapped rule.
     Returns the Rule method that receives them."""
@@ -345,7 +365,7 @@ def check_are_named(repo: Repo, res: Result) -> FuncInfo | None:
     if an is None or an.is_abstract:
         res.add("C05.R1", construct, False, "LayerRule.are_named no longer exists", kind="structural")
         return None
-    view = dview(repo, an, lr, family(repo, lr), tag="lr")
+    view = dview(repo, an, lr, family(repo, lr), tag="lr", normalise=True)
     layers_param = an.param_names[1] if len(an.param_names) > 1 else None
     # the call that hands module specifications to the wrapped rule: a Rule method called with an argument
     handoffs: list[tuple[ast.Call, FuncInfo]] = []
@@ -386,18 +406,21 @@ def check_are_named(repo: Repo, res: Result) -> FuncInfo | None:
         cs = [x for x in cs if not x.is_abstract and (x.cls is None or x.cls.fq in lr_mro)]
         if len(cs) != 1 or how != "repo" or isinstance(cs[0].node, ast.Lambda):
             return None
-        return dview(repo, cs[0], lr, family(repo, lr), tag="lr")
+        return dview(repo, cs[0], lr, family(repo, lr), tag="lr", normalise=True)
 
-    prods = productions(view, arg, follow=follow)
+    prods = [_whole_layer_handed_over(repo, T, view, p) for p in productions(view, arg, follow=follow)]
     if not prods or any(p.elt is None for p in prods):
         bad = next((p for p in prods if p.elt is None), None)
         res.undecide("C05.R1", construct, f"cannot follow how the module specifications `{norm(arg, 60)}` are built" + (f" (`{norm(bad.merged, 60)}`)" if bad is not None and bad.merged is not None else ""), where_of(view, call))
+        receiver.c05_mode = "UNDECIDED"  # type: ignore[attr-defined]  # what the receiver gets (pairs / filter objects) is not known
         return receiver
     ok_all = True
+    any_undecided = False
     for p in prods:
         pv = p.view or view
         verdict, detail = _judge_lowering(repo, T, view, p, layers_param)
         if verdict == "undecided":
+            any_undecided = True
             res.undecide("C05.R1", key_of(repo, pv, p.node, " [layer lowering]"), detail, where_of(pv, p.node))
             ok_all = False
         elif verdict == "violated":
@@ -408,6 +431,8 @@ def check_are_named(repo: Repo, res: Result) -> FuncInfo | None:
         res.add("C05.R1", construct, True, "every module filter of every named layer reaches the wrapped rule as " + ("a module filter of its own kind" if as_filters else "(identifier, identifier_is_regex)"), where(an, an.node), kind="flow")
         if as_filters:
             receiver.c05_mode = "FILTERS"  # type: ignore[attr-defined]
+    elif any_undecided:
+        receiver.c05_mode = "UNDECIDED"  # type: ignore[attr-defined]
     return receiver
 
 
@@ -433,6 +458,26 @@ def _flatten_loops(view: FuncInfo, loops: list, cnds: list, rounds: int = 4, ali
                 comp, flat = _strip_transparent(single_value(view, src.args[0])), True
         elif isinstance(src, (ast.ListComp, ast.GeneratorExp, ast.SetComp)):
             comp = src
+        elif isinstance(src, ast.Name) and any(isinstance(tk, ast.Name) and tk.id == src.id for tk, _ik in loops[:-1]):
+            # the innermost loop ranges over the variable of an enclosing loop (`for group in groups: for m in group`): when the
+            # enclosing loop ranges over a comprehension / a collection with one producing event, `group` stands for its element
+            k = max(i for i, (tk, _ik) in enumerate(loops[:-1]) if isinstance(tk, ast.Name) and tk.id == src.id)
+            outer_src = _strip_transparent(single_value(view, loops[k][1]))
+            gens_k = elt_k = None
+            ifs_k: list = []
+            if isinstance(outer_src, (ast.ListComp, ast.GeneratorExp, ast.SetComp)):
+                gens_k = [(g.target, g.iter) for g in outer_src.generators]
+                ifs_k = [(c, True) for g in outer_src.generators for c in g.ifs]
+                elt_k = outer_src.elt
+            elif isinstance(outer_src, ast.Name) and outer_src.id not in view.param_names:
+                prods_k = productions(view, outer_src)
+                if len(prods_k) == 1 and prods_k[0].elt is not None and prods_k[0].loops:
+                    gens_k, ifs_k, elt_k = list(prods_k[0].loops), list(prods_k[0].conds), prods_k[0].elt
+            if gens_k is None or elt_k is None:
+                break
+            loops = loops[:k] + gens_k + loops[k + 1:-1] + [(t, elt_k)]
+            cnds = ifs_k + cnds
+            continue
         elif isinstance(src, ast.Name) and src.id not in view.param_names:
             prods = productions(view, src)
             if len(prods) == 1 and prods[0].elt is not None and prods[0].loops:
@@ -445,6 +490,8 @@ def _flatten_loops(view: FuncInfo, loops: list, cnds: list, rounds: int = 4, ali
                     loops = loops[:-1] + q.loops
                 elif isinstance(q.elt, ast.Name) and q.elt.id in target_names(q.loops[-1][0]) and isinstance(q.loops[-1][0], ast.Name):
                     loops = loops[:-1] + q.loops[:-1] + [(t, q.loops[-1][1])]
+                    if alias is not None and isinstance(t, ast.Name) and t.id != q.elt.id:
+                        alias[q.elt.id] = ast.Name(id=t.id, ctx=ast.Load())
                 else:
                     loops = loops[:-1] + q.loops + [(t, ast.List(elts=[q.elt], ctx=ast.Load()))]
                 cnds = q.conds + cnds
@@ -462,10 +509,25 @@ def _flatten_loops(view: FuncInfo, loops: list, cnds: list, rounds: int = 4, ali
             loops = loops[:-1] + gens
         elif isinstance(comp.elt, ast.Name) and isinstance(gens[-1][0], ast.Name) and comp.elt.id == gens[-1][0].id:
             loops = loops[:-1] + gens[:-1] + [(t, gens[-1][1])]
+            if alias is not None and isinstance(t, ast.Name) and t.id != comp.elt.id:
+                alias[comp.elt.id] = ast.Name(id=t.id, ctx=ast.Load())  # conditions written on the inner variable speak about t
         else:
             loops = loops[:-1] + gens + [(t, ast.List(elts=[comp.elt], ctx=ast.Load()))]
         cnds = ifs + cnds
     return loops, cnds
+
+
+def _other_filter_attribute(repo: Repo, flag: ast.expr, mvars: set[str]) -> bool:
+    """`m.<attr>` for a member of the ModuleFilter classes other than identifier_is_regex (identifier_is_parent_module ...)."""
+    if not (isinstance(flag, ast.Attribute) and isinstance(flag.value, ast.Name) and flag.value.id in mvars and flag.attr != "identifier_is_regex"):
+        return False
+    base = repo.classes.get("pytestarch.eval_structure.evaluable_architecture.ModuleFilter")
+    if base is None:
+        return False
+    for ci in [base, *repo.subclasses(base)]:
+        if flag.attr in ci.methods or flag.attr in getattr(ci, "ann_attrs", []):
+            return True
+    return False
 
 
 def _judge_lowering(repo: Repo, T, view: FuncInfo, p: Production, layers_param: str | None) -> tuple[str, str]:
@@ -499,7 +561,7 @@ def _judge_lowering(repo: Repo, T, view: FuncInfo, p: Production, layers_param: 
 
             if not equivalent(ff, atom("IS_REGEX")):
                 return "violated", f"the regex flag handed to the rule is `{norm(flag, 40)}`, not the module filter's own `identifier_is_regex`: a layer is not lowered to its module filters with their own regex flag"
-        elif not (names_in(flag) & mvars):
+        elif not (names_in(flag) & mvars) or _other_filter_attribute(repo, flag, mvars):
             return "violated", f"the regex flag handed to the rule is `{norm(flag, 40)}`, not the module filter's own `identifier_is_regex`: a layer is not lowered to its module filters with their own regex flag"
         else:
             return "undecided", f"the regex flag `{norm(flag, 50)}` is derived from the module filter in an unrecognised way"
@@ -593,6 +655,10 @@ class Components:
             for n in nodes:
                 if isinstance(n, (ast.For, ast.AsyncFor, ast.comprehension)):
                     self.bind(n.target, self.elem(self.tag(n.iter)))
+                    if isinstance(n.iter, ast.Call) and isinstance(n.iter.func, ast.Name) and n.iter.func.id == "zip" and isinstance(n.target, (ast.Tuple, ast.List)) and len(n.target.elts) == len(n.iter.args) and not any(isinstance(a, ast.Starred) for a in n.iter.args):
+                        # for a, b in zip(xs, ys): component-wise
+                        for tg, a in zip(n.target.elts, n.iter.args):
+                            self.bind(tg, self.elem(self.tag(a)))
                 elif isinstance(n, ast.Assign):
                     t = self.tag(n.value)
                     for tg in n.targets:
@@ -601,6 +667,13 @@ class Components:
                     self.bind(n.target, self.tag(n.value))
                 elif isinstance(n, ast.NamedExpr):
                     self.bind(n.target, self.tag(n.value))
+                elif isinstance(n, ast.Call) and isinstance(n.func, (ast.Name, ast.Lambda)) and not n.keywords:
+                    # application of a lambda (directly, or bound to a local / parameter alias once): parameters take the
+                    # components of the arguments
+                    lam = n.func if isinstance(n.func, ast.Lambda) else self._lambda_of(n.func.id, nodes)
+                    if lam is not None and not any(isinstance(a, ast.Starred) for a in n.args):
+                        for p_, a in zip([*lam.args.posonlyargs, *lam.args.args], n.args):
+                            self.join(f"{p_.arg}@{id(lam)}", self.tag(a))
                 elif isinstance(n, (ast.Lambda, ast.FunctionDef)) and n is not getattr(ctx, "node", None):
                     args = n.args
                     pos = [*args.posonlyargs, *args.args]
@@ -608,25 +681,130 @@ class Components:
                         t = self.tag(d)
                         if t:
                             self.env.setdefault(p_.arg, t)
+                            if isinstance(n, ast.Lambda):
+                                self.env.setdefault(f"{p_.arg}@{id(n)}", t)
                     for p_, d in zip(args.kwonlyargs, args.kw_defaults):
                         if d is not None and self.tag(d):
                             self.env.setdefault(p_.arg, self.tag(d))
             if self.env == before:
                 break
 
+    def _lambda_of(self, name: str, nodes: list[ast.AST], depth: int = 0) -> ast.Lambda | None:
+        """The one lambda a local name stands for: bound by assignment, or the loop variable over a collection all of whose
+        elements are made by one lambda expression (`[lambda n: F(n) for _ in names]`, possibly through zip)."""
+        vals = [n.value for n in nodes if isinstance(n, (ast.Assign, ast.AnnAssign)) and n.value is not None and any(isinstance(t, ast.Name) and t.id == name for t in (n.targets if isinstance(n, ast.Assign) else [n.target]))]
+        if len(vals) == 1 and isinstance(vals[0], ast.Lambda):
+            return vals[0]
+        if vals or depth > 3:
+            return None
+        srcs: list[ast.expr] = []
+        for n in nodes:
+            if isinstance(n, (ast.For, ast.AsyncFor, ast.comprehension)):
+                if isinstance(n.target, ast.Name) and n.target.id == name:
+                    srcs.append(n.iter)
+                elif isinstance(n.target, (ast.Tuple, ast.List)) and isinstance(n.iter, ast.Call) and isinstance(n.iter.func, ast.Name) and n.iter.func.id == "zip" and len(n.target.elts) == len(n.iter.args):
+                    for tg, a in zip(n.target.elts, n.iter.args):
+                        if isinstance(tg, ast.Name) and tg.id == name:
+                            srcs.append(a)
+        if len(srcs) != 1:
+            return None
+        src = srcs[0]
+        while isinstance(src, ast.Call) and isinstance(src.func, ast.Name) and src.func.id in ("list", "tuple", "iter") and len(src.args) == 1:
+            src = src.args[0]
+        if isinstance(src, ast.Name):
+            coll = [n.value for n in nodes if isinstance(n, (ast.Assign, ast.AnnAssign)) and n.value is not None and any(isinstance(t, ast.Name) and t.id == src.id for t in (n.targets if isinstance(n, ast.Assign) else [n.target]))]
+            if len(coll) != 1:
+                return None
+            src = coll[0]
+            if isinstance(src, ast.Name):
+                return None
+        if isinstance(src, (ast.ListComp, ast.GeneratorExp)) and isinstance(src.elt, ast.Lambda):
+            return src.elt
+        if isinstance(src, (ast.List, ast.Tuple)) and len(src.elts) == 1 and isinstance(src.elts[0], ast.Lambda):
+            return src.elts[0]
+        if isinstance(src, ast.BinOp) and isinstance(src.op, ast.Mult) and isinstance(src.left, (ast.List, ast.Tuple)) and len(src.left.elts) == 1 and isinstance(src.left.elts[0], ast.Lambda):
+            return src.left.elts[0]
+        return None
+
+    def join(self, name: str, t: str | None) -> None:
+        """A name that receives components from several places: the same component keeps its tag, a name of a regex pair and a
+        name of a non-regex pair make a plain NAME, anything else is unknown."""
+        if not t:
+            return
+        old = self.env.get(name)
+        if old is None or old == t:
+            self.env[name] = t
+        elif old.split(":")[0] == t.split(":")[0]:
+            self.env[name] = old.split(":")[0]
+        else:
+            self.env[name] = "?"
+
     @staticmethod
     def elem(t: str | None) -> str | None:
-        return {"SPECS": "SPEC", "NAMES": "NAME", "FLAGS": "FLAG", "ENUM-SPECS": "ENUM-SPEC", "FILTERS": "FILTER"}.get(t or "")
+        base, _, pol = (t or "").partition(":")
+        e = {"SPECS": "SPEC", "NAMES": "NAME", "FLAGS": "FLAG", "ENUM-SPECS": "ENUM-SPEC", "FILTERS": "FILTER"}.get(base)
+        return f"{e}:{pol}" if e and pol and e in ("NAME", "SPEC") else e
+
+    def _selected(self, e: ast.expr) -> str | None:
+        """`[name for name, flag in specs if flag]` / `[spec for spec in specs if not spec[1]]`: the names (pairs) of the pairs
+        whose flag is true (NAMES:+ / SPECS:+) resp. false (:-)."""
+        if not isinstance(e, (ast.ListComp, ast.GeneratorExp, ast.SetComp)) or len(e.generators) != 1:
+            return None
+        g = e.generators[0]
+        it = self.tag(g.iter)
+        if it not in ("SPECS", "SPECS:+", "SPECS:-"):
+            return None
+        saved = dict(self.env)
+        try:
+            self.bind(g.target, self.elem(it))
+            what = (self.tag(e.elt) or "").split(":")[0]
+            pol = it.partition(":")[2]
+            if g.ifs:
+                f = f_and([to_formula(c, self.flagsub) for c in g.ifs])
+                if atoms_of(f) <= {"FLAG"} and atoms_of(f):
+                    if implies(f, atom("FLAG")):
+                        pol = "+"
+                    elif implies(f, f_not(atom("FLAG"))):
+                        pol = "-"
+                    else:
+                        pol = pol
+                elif atoms_of(f):
+                    return None  # selected by something else: not modelled
+        finally:
+            self.env = saved
+        if what == "NAME":
+            return "NAMES" + (f":{pol}" if pol else "")
+        if what == "SPEC":
+            return "SPECS" + (f":{pol}" if pol else "")
+        if what == "FLAG":
+            return "FLAGS"
+        return None
 
     def tag(self, e: ast.expr | None) -> str | None:
         if e is None:
             return None
         if isinstance(e, ast.Name):
-            return self.env.get(e.id)
+            # a parameter of an enclosing lambda is that lambda's own (two lambdas may both call theirs `name`)
+            node: ast.AST | None = parent(e)
+            hops = 0
+            while node is not None and hops < 12:
+                if isinstance(node, ast.Lambda) and any(a.arg == e.id for a in [*node.args.posonlyargs, *node.args.args, *node.args.kwonlyargs]):
+                    t = self.env.get(f"{e.id}@{id(node)}")
+                    if t is not None:
+                        return None if t == "?" else t
+                    break
+                node = parent(node)
+                hops += 1
+            t = self.env.get(e.id)
+            return None if t == "?" else t
+        if isinstance(e, (ast.ListComp, ast.GeneratorExp, ast.SetComp)):
+            return self._selected(e)
         if isinstance(e, ast.Attribute) and self.tag(e.value) == "FILTER":
             return {"identifier_is_regex": "FLAG", "identifier": "NAME", "name": "NAME"}.get(e.attr)
-        if isinstance(e, ast.Subscript) and isinstance(e.slice, ast.Constant) and self.tag(e.value) == "SPEC":
-            return {0: "NAME", 1: "FLAG", -1: "FLAG", -2: "NAME"}.get(e.slice.value)
+        if isinstance(e, ast.Subscript) and isinstance(e.slice, ast.Constant) and (self.tag(e.value) or "").split(":")[0] == "SPEC":
+            comp_ = {0: "NAME", 1: "FLAG", -1: "FLAG", -2: "NAME"}.get(e.slice.value)
+            pol_ = (self.tag(e.value) or "").partition(":")[2]
+            return f"{comp_}:{pol_}" if comp_ == "NAME" and pol_ else comp_
         if isinstance(e, ast.Subscript) and isinstance(e.slice, ast.Slice):
             return self.tag(e.value)
         if isinstance(e, ast.Subscript) and isinstance(e.slice, ast.Constant) and self.tag(e.value) == "ZIPPED":
@@ -655,8 +833,9 @@ class Components:
                 self.env.setdefault(target.id, t)
         elif isinstance(target, (ast.Tuple, ast.List)) and len(target.elts) == 2:
             a, b = target.elts
-            if t == "SPEC":
-                self.bind(a, "NAME")
+            if t and t.split(":")[0] == "SPEC":
+                pol = t.partition(":")[2]
+                self.bind(a, "NAME" + (f":{pol}" if pol else ""))
                 self.bind(b, "FLAG")
             elif t == "ZIPPED":
                 self.bind(a, "NAMES")
@@ -698,7 +877,17 @@ def _maker_sites(repo: Repo, T, ctx: FuncInfo, node_iter, classes: dict[str, str
                 ci = None
             if ci is not None and ci.fq in classes:
                 if _direct_ref(repo, T, c_ctx, orig.func):
-                    out.append((classes[ci.fq], _site_formula(ctx, n, pre, flagsub), n, ctx))
+                    f_site = _site_formula(ctx, n, pre, flagsub)
+                    # the pair the created filter belongs to: a name taken from the pairs whose flag is known (a partition of
+                    # the pairs by the flag) carries that knowledge; a name of unknown provenance carries none
+                    name_arg = n.args[0] if n.args else next((k.value for k in n.keywords if k.arg in ("name", "identifier", "parent_module")), None)
+                    nt = comp.tag(name_arg) if name_arg is not None else None
+                    kind = classes[ci.fq]
+                    if nt in ("NAME:+", "NAME:-"):
+                        f_site = f_and([f_site, atom("FLAG") if nt.endswith("+") else f_not(atom("FLAG"))])
+                    elif nt is None and kind in ("regex", "name") and "FLAG" not in atoms_of(f_site) and getattr(comp, "track_names", False):
+                        kind = "untracked:" + kind
+                    out.append((kind, f_site, n, ctx))
                 # else: a class held in a variable / table is called - the places where it was chosen are the sites
                 continue
             # helper that creates the filter (not inlined because it sits in an expression): follow it with the components of
@@ -897,11 +1086,22 @@ def check_filter_selection(repo: Repo, res: Result, receiver: FuncInfo | None) -
         return
     nodes = list(all_nodes(view))
     mode = getattr(receiver, "c05_mode", "SPECS")
+    if mode == "UNDECIDED":
+        # the lowering on the LayerRule side was left undecided (already reported): whether pairs or filter objects arrive here
+        # is not known, so a missing filter construction is no evidence of anything
+        return
     comp = Components(view, nodes, {params[0]: mode})
+    comp.track_names = True  # type: ignore[attr-defined]
     sites: list = []
     from core.guards import TRUE
 
     _maker_sites(repo, T, view, nodes, classes, comp, TRUE, 0, sites)
+    untracked = [(k, n) for k, _f, n, _c in sites if k.startswith("untracked:")]
+    if untracked:
+        # a filter is created from a name whose pair (and therefore whose flag) the analysis lost track of: neither "selected by
+        # the flag" nor "not selected by the flag" is established
+        res.undecide("C05.R1", construct, f"`{norm(untracked[0][1], 60)}` creates a {untracked[0][0].split(':')[1]} filter from a name whose (identifier, is-regex) pair could not be followed, and no test of the flag guards it", where_of(view, untracked[0][1]))
+        return
     kinds = {k for k, _f, _n, _c in sites}
     if mode == "FILTERS" and not sites:
         res.add("C05.R1", construct, True, "the layer's own module filters are taken over as they are (their kind is preserved)", where(receiver, receiver.node), kind="structural")
@@ -929,6 +1129,106 @@ def check_filter_selection(repo: Repo, res: Result, receiver: FuncInfo | None) -
             bad.append(f"`{norm(n, 50)}` creates a parent-module filter from a layer's (identifier, is-regex) pair")
     ok = not bad
     res.add("C05.R1", construct, ok, "regex modules become regex filters, named modules name filters" if ok else "the regex flag does not select ModuleNameRegexFilter vs ModuleNameFilter: " + "; ".join(bad[:2]), where(receiver, receiver.node), kind="dominance")
+
+
+def _mentions_param(view: FuncInfo, e: ast.AST, param: str, depth: int = 0, seen: frozenset = frozenset()) -> bool:
+    """The value is computed from the parameter (through locals, loops and comprehensions)."""
+    if depth > 6:
+        return False
+    from .c05_views import assignments_of, stores_of
+
+    for x in ast.walk(e):
+        if not (isinstance(x, ast.Name) and isinstance(x.ctx, ast.Load)):
+            continue
+        if x.id == param:
+            return True
+        if x.id in seen or x.id in ("self", "cls"):
+            continue
+        for st in stores_of(view, x.id):
+            p_ = parent(st)
+            while isinstance(p_, (ast.Tuple, ast.List, ast.Starred)):
+                p_ = parent(p_)
+            src = None
+            if isinstance(p_, (ast.Assign, ast.AnnAssign, ast.AugAssign, ast.NamedExpr)):
+                src = p_.value
+            elif isinstance(p_, (ast.For, ast.AsyncFor, ast.comprehension)):
+                src = p_.iter
+            if src is not None and _mentions_param(view, src, param, depth + 1, seen | {x.id}):
+                return True
+    return False
+
+
+def check_handoff_accumulates(repo: Repo, res: Result, receiver: FuncInfo | None) -> None:
+    """What the wrapped rule receives for one `are_named` call ends up in its configuration *as a whole*: a configuration field
+    that is assigned filters made from the hand-over is not assigned again, on the same path, by a statement that does not take
+    the field's current content along (second group overwrites the first; a loop keeps the last element only)."""
+    if receiver is None:
+        return
+    from core.cfg import CFG
+    import networkx as nx
+
+    rule = repo.cls(RULE, "Rule")
+    view = dview(repo, receiver, rule, family(repo, rule), tag="rule")
+    params = [p for p in receiver.param_names if p not in ("self", "cls")]
+    if not params or isinstance(view.node, ast.Lambda):
+        return
+    param = params[0]
+    stores: dict[str, list[tuple[ast.stmt, ast.expr, ast.expr]]] = {}
+    for n in all_nodes(view):
+        if isinstance(n, (ast.Assign, ast.AnnAssign)) and n.value is not None:
+            for t in (n.targets if isinstance(n, ast.Assign) else [n.target]):
+                root = t
+                while isinstance(root, ast.Attribute):
+                    root = root.value
+                if isinstance(t, ast.Attribute) and isinstance(root, ast.Name) and root.id in ("self", "cls") and _mentions_param(view, n.value, param):
+                    stores.setdefault(norm(t), []).append((n, t, n.value))
+    if not stores:
+        return
+    try:
+        cfg = CFG(view.node)
+    except Exception:  # noqa: BLE001
+        return
+
+    def takes_along(value: ast.expr, text: str) -> bool:
+        for x in ast.walk(value):
+            if isinstance(x, ast.Attribute) and isinstance(x.ctx, ast.Load) and norm(x) == text:
+                return True
+            if isinstance(x, ast.Name) and isinstance(x.ctx, ast.Load):
+                v = single_value(view, x)
+                if v is not x and any(isinstance(y, ast.Attribute) and norm(y) == text for y in ast.walk(v)):
+                    return True
+        return False
+
+    def guarded_by_field(st: ast.stmt, text: str) -> bool:
+        return any(any(isinstance(y, ast.Attribute) and norm(y) == text for y in ast.walk(c)) for c, _pol in conds(view, st))
+
+    construct = f"{receiver.relpath}::{receiver.qualname}::everything handed over is kept"
+    bad = None
+    for text, sts in stores.items():
+        for i, (s1, _t1, _v1) in enumerate(sts):
+            # (a) inside a loop over the hand-over: the next iteration assigns again
+            loop = next((a for a in _ancestors(s1) if isinstance(a, (ast.For, ast.AsyncFor, ast.While)) and a is not view.node), None)
+            if loop is not None and not isinstance(loop, ast.While) and _mentions_param(view, loop.iter, param) and not takes_along(_v1, text) and not guarded_by_field(s1, text):
+                bad = bad or (s1, s1, text, "every iteration of the loop assigns the field anew: only the filters of the last iteration are kept")
+            for s2, _t2, v2 in sts[i + 1:]:
+                if s1 is s2 or takes_along(v2, text) or guarded_by_field(s2, text):
+                    continue
+                if s1 not in cfg.g or s2 not in cfg.g or not nx.has_path(cfg.g, s1, s2):
+                    continue
+                if not satisfiable(conds_formula(list(conds(view, s1)) + list(conds(view, s2)), lambda e: None)):
+                    continue
+                bad = bad or (s1, s2, text, f"`{norm(s2, 70)}` replaces what `{norm(s1, 70)}` stored on the same path: the module filters of the first group of named layers are lost")
+    if bad is not None:
+        s1, s2, text, why = bad
+        res.add("C05.R1", key_of(repo, view, s2, " [hand-over overwritten]"), False, f"`{text}` receives module filters made from the layers handed over, but {why}", where_of(view, s2), kind="flow")
+    else:
+        res.add("C05.R1", construct, True, f"{sum(len(v) for v in stores.values())} assignment(s) of hand-over-derived filters to configuration fields; none is overwritten on the same path", where(receiver, receiver.node), kind="flow")
+
+
+def _ancestors(n: ast.AST):
+    from core.loader import ancestors
+
+    return ancestors(n)
 
 
 # --------------------------------------------------------------------------- layers_that: the wrapped rule judges with the layer matcher
